@@ -919,6 +919,147 @@ fn h_loader(op: &str, a: &[&str]) -> Option<String> {
             }
             Some(with_oracle(format!("ok {out}"), bad))
         }
+        ("ub", [e, f, ver, ft, asz, attrs, st, so, ad, nidx, exp]) => {
+            use gimli::Section;
+            let e = endian(e)?;
+            let big = e == RunTimeEndian::Big;
+            let f64_ = match *f {
+                "32" => false,
+                "64" => true,
+                _ => return None,
+            };
+            let ver: u16 = ver.parse().ok()?;
+            if ver != 4 && ver != 5 {
+                return None;
+            }
+            let asz: u8 = asz.parse().ok()?;
+            let nidx: usize = nidx.parse().ok()?;
+            let (st, so, ad) = (unhex(st)?, unhex(so)?, unhex(ad)?);
+            let attrs: Vec<(u64, u64)> = if *attrs == "-" {
+                vec![]
+            } else {
+                attrs.split(',').map(|t| t.split_once(':').and_then(|(a, b)| Some((a.parse().ok()?, b.parse().ok()?)))).collect::<Option<Vec<_>>>()?
+            };
+            // a real unit: one root DIE carrying exactly the given base attributes (DW_FORM_sec_offset)
+            let mut abbrev: Vec<u8> = vec![1, 0x11, 0];
+            for (at, _) in &attrs {
+                uleb(*at, &mut abbrev);
+                abbrev.push(0x17);
+            }
+            abbrev.extend_from_slice(&[0, 0, 0]);
+            let dwo_id: u64 = 0x1122_3344_5566_7788;
+            let split = *ft != "main";
+            let mut body = W::new(big);
+            body.u16(ver);
+            if ver == 5 {
+                body.u8(if split { 5 } else { 1 });
+                body.u8(asz);
+                body.word(0, f64_);
+                if split {
+                    body.u64(dwo_id);
+                }
+            } else {
+                body.word(0, f64_);
+                body.u8(asz);
+            }
+            body.u8(1);
+            for (_, v) in &attrs {
+                body.word(*v, f64_);
+            }
+            let mut info = W::new(big);
+            info.initial_length(body.b.len() as u64, f64_);
+            info.bytes(&body.b);
+            let info = info.b;
+            let mut dwarf: gimli::Dwarf<Sl<'_>>;
+            let cu_bytes;
+            match *ft {
+                "main" | "dwo" => {
+                    dwarf = gimli::Dwarf::default();
+                    dwarf.debug_info = gimli::DebugInfo::new(&info, e);
+                    dwarf.debug_abbrev = gimli::DebugAbbrev::new(&abbrev, e);
+                    dwarf.debug_str = gimli::DebugStr::new(&st, e);
+                    dwarf.debug_str_offsets = gimli::DebugStrOffsets::from(EndianSlice::new(&so[..], e));
+                    dwarf.debug_addr = gimli::DebugAddr::from(EndianSlice::new(&ad[..], e));
+                    if *ft == "dwo" {
+                        dwarf.file_type = gimli::DwarfFileType::Dwo;
+                    }
+                }
+                "dwp" => {
+                    // the same unit fetched from a package whose only unit covers the whole sections
+                    let ix = AbsIndex {
+                        version: if ver == 5 { 5 } else { 2 },
+                        k: Some(1),
+                        kvs: vec![(dwo_id, 1)],
+                        cols: vec![1, 3, 6],
+                        unit_count: 1,
+                        offsets: vec![vec![0, 0, 0]],
+                        sizes: vec![vec![info.len() as u32, abbrev.len() as u32, so.len() as u32]],
+                    };
+                    let slots = build_slots(1, &ix.kvs)?;
+                    cu_bytes = ser_index(&ix, big, &slots, 2, None, 0);
+                    let empty = EndianSlice::new(&[][..], e);
+                    let dwp = gimli::DwarfPackage::load(
+                        |id| -> Result<Sl<'_>, gimli::Error> {
+                            Ok(EndianSlice::new(
+                                match id {
+                                    gimli::SectionId::DebugCuIndex => &cu_bytes[..],
+                                    gimli::SectionId::DebugInfo => &info[..],
+                                    gimli::SectionId::DebugAbbrev => &abbrev[..],
+                                    gimli::SectionId::DebugStr => &st[..],
+                                    gimli::SectionId::DebugStrOffsets => &so[..],
+                                    _ => &[][..],
+                                },
+                                e,
+                            ))
+                        },
+                        empty,
+                    );
+                    let dwp = match dwp {
+                        Ok(d) => d,
+                        Err(x) => return Some(format!("err {}", rerr(&x))),
+                    };
+                    let mut parent: gimli::Dwarf<Sl<'_>> = gimli::Dwarf::default();
+                    parent.debug_addr = gimli::DebugAddr::from(EndianSlice::new(&ad[..], e));
+                    match dwp.find_cu(gimli::DwoId(dwo_id), &parent) {
+                        Ok(Some(d)) => dwarf = d,
+                        Ok(None) => return Some("panic harness: unit not in package".into()),
+                        Err(x) => return Some(format!("err {}", rerr(&x))),
+                    }
+                }
+                _ => return None,
+            }
+            let hd = match dwarf.units().next() {
+                Ok(Some(h)) => h,
+                Ok(None) => return Some("panic harness: no unit".into()),
+                Err(x) => return Some(format!("err {}", rerr(&x))),
+            };
+            let unit = match dwarf.unit(hd) {
+                Ok(u) => u,
+                Err(x) => return Some(format!("err {}", rerr(&x))),
+            };
+            let b = format!("{}:{}:{}:{}", unit.str_offsets_base.0, unit.addr_base.0, unit.loclists_base.0, unit.rnglists_base.0);
+            let sv: Vec<String> = (0..nidx).map(|i| res_s(dwarf.string_offset(&unit, gimli::DebugStrOffsetsIndex(i)), |o| o.0.to_string())).collect();
+            let tv: Vec<String> = (0..nidx)
+                .map(|i| res_s(dwarf.attr_string(&unit, gimli::AttributeValue::DebugStrOffsetsIndex(gimli::DebugStrOffsetsIndex(i))), |r| hex(r.slice())))
+                .collect();
+            let av: Vec<String> = (0..nidx).map(|i| res_s(dwarf.address(&unit, gimli::DebugAddrIndex(i)), |v| v.to_string())).collect();
+            let parts = [format!("B={b}"), format!("S={}", join(",", &sv)), format!("T={}", join(",", &tv)), format!("A={}", join(",", &av))];
+            let out = parts.join("|");
+            let mut bad = None;
+            if *exp != "-" {
+                let ex: Vec<&str> = exp.split('|').collect();
+                if ex.len() != 4 {
+                    return None;
+                }
+                for (want, got) in ex.iter().zip(parts.iter()) {
+                    if &want[2..] != "*" && *want != got.as_str() && bad.is_none() {
+                        bad = Some(format!("unit-table-differs written={want} read={got}"));
+                    }
+                }
+            }
+            let _ = dwarf.debug_info.reader();
+            Some(with_oracle(format!("ok {out}"), bad))
+        }
         ("stroff", [e, f, h, base, index, exp]) => {
             let e = endian(e)?;
             let f = match *f {
@@ -2840,6 +2981,143 @@ fn gen_real(ctx: &Ctx, emit: &mut dyn FnMut(String)) {
     }
 }
 
+
+fn gen_unit_bases(ctx: &Ctx, emit: &mut dyn FnMut(String)) {
+    let mut rng = ctx.rng(1708);
+    let reps = ctx.n(3, 40);
+    for big in [false, true] {
+        for f64_ in [false, true] {
+            for ver in [4u16, 5] {
+                for ft in ["main", "dwo", "dwp"] {
+                    // which bases the root DIE gives explicitly: none / strings / addresses / all
+                    for explicit in 0..4u32 {
+                        for _ in 0..reps {
+                            let asz = *rng.pick(&[1u8, 2, 4, 8]);
+                            let ws = if f64_ { 8 } else { 4 };
+                            let n = rng.range(1, 6) as usize;
+                            // .debug_str and the table of offsets into it
+                            let mut st: Vec<u8> = Vec::new();
+                            let mut at: Vec<(u64, Vec<u8>)> = Vec::new();
+                            for i in 0..rng.range(2, 5) {
+                                let sbytes: Vec<u8> = (0..rng.below(4)).map(|j| b'a' + ((i * 3 + j) % 26) as u8).collect();
+                                at.push((st.len() as u64, sbytes.clone()));
+                                st.extend_from_slice(&sbytes);
+                                st.push(0);
+                            }
+                            let entries: Vec<(u64, Vec<u8>)> = (0..n).map(|_| rng.pick(&at).clone()).collect();
+                            // .debug_str_offsets: DWARF 5 has a header, the GNU v4 section has none;
+                            // optionally another contribution in front (then only an explicit base can be right)
+                            let mut so = W::new(big);
+                            let front = explicit & 1 == 1 && rng.chance(1, 2);
+                            if front {
+                                let k = ws * rng.range(1, 3) as usize;
+                                so.bytes(&rng.bytes(k));
+                            }
+                            if ver == 5 {
+                                so.initial_length((4 + n * ws) as u64, f64_);
+                                so.u16(5);
+                                so.u16(0);
+                            }
+                            let so_start = so.b.len() as u64;
+                            for (off, _) in &entries {
+                                so.word(*off, f64_);
+                            }
+                            if rng.chance(1, 3) {
+                                so.bytes(&rng.bytes_below(ws as u64));
+                            }
+                            // .debug_addr
+                            let mut ad = W::new(big);
+                            if ver == 5 {
+                                ad.initial_length((4 + n * asz as usize) as u64, f64_);
+                                ad.u16(5);
+                                ad.u8(asz);
+                                ad.u8(0);
+                            }
+                            let ad_start = ad.b.len() as u64;
+                            let addrs: Vec<u64> = (0..n).map(|_| rng.boundary_u64() & ar_mask(asz)).collect();
+                            for a in &addrs {
+                                ad.uint(*a, asz as usize);
+                            }
+                            // explicit attributes (GNU names in version 4)
+                            let mut attrs: Vec<(u64, u64)> = Vec::new();
+                            let ll = rng.below(64);
+                            let rl = rng.below(64);
+                            if explicit & 1 == 1 {
+                                attrs.push((0x72, so_start));
+                            }
+                            if explicit & 2 == 2 {
+                                attrs.push((if ver == 5 { 0x73 } else { 0x2133 }, ad_start));
+                            }
+                            if explicit == 3 {
+                                attrs.push((if ver == 5 { 0x74 } else { 0x2132 }, rl));
+                                if ver == 5 {
+                                    attrs.push((0x8c, ll));
+                                }
+                                if rng.chance(1, 3) {
+                                    // a second, later attribute of the same kind wins
+                                    attrs.insert(0, (0x72, rng.below(9)));
+                                }
+                            }
+                            let dwo5 = ver >= 5 && ft != "main";
+                            let so_base = if explicit & 1 == 1 { so_start } else if dwo5 { if f64_ { 16 } else { 8 } } else { 0 };
+                            let ad_base = if explicit & 2 == 2 { ad_start } else { 0 };
+                            let lists_default = if dwo5 { if f64_ { 20 } else { 12 } } else { 0 };
+                            let rl_base = if explicit == 3 { rl } else { lists_default };
+                            let ll_base = if explicit == 3 && ver == 5 { ll } else { lists_default };
+                            // what a linear walk over the table the generator wrote yields
+                            let exp_b = format!("B={so_base}:{ad_base}:{ll_base}:{rl_base}");
+                            let (exp_s, exp_t) = if so_base == so_start {
+                                (
+                                    format!("S={}", join(",", &entries.iter().map(|x| x.0.to_string()).collect::<Vec<_>>())),
+                                    format!("T={}", join(",", &entries.iter().map(|x| hex(&x.1)).collect::<Vec<_>>())),
+                                )
+                            } else {
+                                ("S=*".to_string(), "T=*".to_string())
+                            };
+                            let exp_a = if ad_base == ad_start { format!("A={}", join(",", &addrs.iter().map(|x| x.to_string()).collect::<Vec<_>>())) } else { "A=*".to_string() };
+                            let attrs_s = join(",", &attrs.iter().map(|(a, v)| format!("{a}:{v}")).collect::<Vec<_>>());
+                            emit(format!(
+                                "ub {} {} {} {} {} {} {} {} {} {} {}|{}|{}|{}",
+                                es(big),
+                                if f64_ { "64" } else { "32" },
+                                ver,
+                                ft,
+                                asz,
+                                attrs_s,
+                                hex(&st),
+                                hex(&so.b),
+                                hex(&ad.b),
+                                n,
+                                exp_b,
+                                exp_s,
+                                exp_t,
+                                exp_a
+                            ));
+                            // out-of-range probes and damaged tables: correspondence only
+                            if rng.chance(1, 4) {
+                                let cut = rng.below(so.b.len() as u64 + 1) as usize;
+                                emit(format!(
+                                    "ub {} {} {} {} {} {} {} {} {} {} -",
+                                    es(big),
+                                    if f64_ { "64" } else { "32" },
+                                    ver,
+                                    ft,
+                                    asz,
+                                    attrs_s,
+                                    hex(&st[..st.len() / 2]),
+                                    hex(&so.b[..cut]),
+                                    hex(&ad.b),
+                                    n + 2
+                                ));
+                            }
+                        }
+                    }
+                }
+            }
+        }
+    }
+}
+
 pub fn gen(ctx: &Ctx, emit: &mut dyn FnMut(String)) {
     gen_index(ctx, emit);
     gen_aranges(ctx, emit);
@@ -2848,6 +3126,7 @@ pub fn gen(ctx: &Ctx, emit: &mut dyn FnMut(String)) {
     gen_dwp(ctx, emit);
     gen_indexed(ctx, emit);
     gen_attr(ctx, emit);
+    gen_unit_bases(ctx, emit);
     gen_real(ctx, emit);
     emit("load-wiring".into());
 }
